@@ -109,10 +109,28 @@ fn state_text(msg: &str) -> String {
   format!("{}:{}", name, vals.join(","))
 }
 
+/// Is the trace of visited states readable in the form this harness knows?  Checked once per run on a
+/// machine whose run is known (Count(2) -> Count(1) -> Count(0) -> Done(7)).  The trace is debugging output:
+/// if its channel, label or wording has changed, the visited states are reported as unavailable (`?`)
+/// and only the results are compared, instead of mistaking a reworded message for a wrong run.
+fn trace_readable() -> bool {
+  static READABLE: std::sync::OnceLock<bool> = std::sync::OnceLock::new();
+  *READABLE.get_or_init(|| {
+    let src = "#Mach(a<u64>) => <u64>\n  ├ :Count(p0<u64>)\n  └ :Done(p0<u64>).\n#Mach(a<u64>) -> :Count(a)\n  :Count(x)\n    ├ x > 0u64 -> :Count(x - 1u64)\n    └ * -> :Done(7u64)\n  :Done(x) => x.\n#Mach(2u64)";
+    let (r, steps) = eval_fsm(src, 50);
+    let seen: Vec<String> = steps.iter().map(|m| state_text(m)).collect();
+    matches!(r, Ok(_)) && seen.join(";") == "Count:2;Count:1;Count:0;Done:7"
+  })
+}
+
 pub fn exec(case: &str) -> String {
   let f: Vec<&str> = case.split('\t').collect();
   let src = source(case);
   let (r, steps) = eval_fsm(&src, f[1].parse().unwrap());
+  if !trace_readable() {
+    let res = match r { Ok(v) => canon(&v), Err(e) => if e == "hostpanic" || e == "notcode" || e == "parseerr" || e == "parsepanic" { return format!("harness:{}:{}", e, hexs(&src)); } else { "err".to_string() } };
+    return format!("{}|?", res);
+  }
   let res = match r {
     Ok(v) => canon(&v),
     Err(e) => if e == "hostpanic" || e == "notcode" || e == "parseerr" || e == "parsepanic" { return format!("harness:{}:{}", e, hexs(&src)); } else { "err".to_string() },
